@@ -95,7 +95,13 @@ Modelled(a) == a.k \in {"Begin", "End", "Send", "BulkSend", "Cancel", "ReqBatch"
 \* a passed TokenInfosChangeProposal replaces the token list: from this line on the configuration carries the new one
 NewTokens(line) == [i \in DOMAIN line.res.aux.tokens |-> TokOf(line.res.aux.tokens[i])]
 TokensChanged(line) == line.act.k = "Gov" /\ line.act.p = "TokenInfos" /\ line.res.out = "ok" /\ "aux" \in DOMAIN line.res
-ActOf(line) == IF TokensChanged(line) THEN [k |-> "Gov", p |-> "TokenInfos", i |-> line.act.i, toks |-> NewTokens(line)] ELSE line.act
+\* a claim "by reference" (the k-th event of the real contract's log) that the harness could not resolve: the log is shorter than
+\* the behaviour expected, i.e. an earlier contract step went differently from the contract specification (reported there).
+\* It is no hub step; it is recorded as conf:ref instead of being interpreted.
+UnresolvedRef(a) == a.k = "Claim" /\ "n" \notin DOMAIN a.ev
+ActOf(line) == IF TokensChanged(line) THEN [k |-> "Gov", p |-> "TokenInfos", i |-> line.act.i, toks |-> NewTokens(line)]
+               ELSE IF UnresolvedRef(line.act) THEN [k |-> "UnresolvedRef", i |-> line.act.i]
+               ELSE line.act
 CfgAfter(cfg, line) == IF TokensChanged(line) THEN [cfg EXCEPT !.tokens = NewTokens(line)] ELSE cfg
 
 \* the pre-state handed to Step: for "End" the staking module's validator update has already happened
@@ -341,15 +347,15 @@ ConsumeStep ==
                                     !.cov = Bump(@, CovKey(line.act, line.res))]
        ELSE LET post == StateOf(line.post, CfgAfter(hist.cfg, line))
                 act  == ActOf(line)
-                gc2  == GcNext(hist.gc, hist.pre, line.act, line.res)
-                xw0  == IF ExtAct(line.act) /\ WithWorld(hist.fam) THEN XwApply(hist.xw, line.act) ELSE hist.xw
+                gc2  == GcNext(hist.gc, hist.pre, act, line.res)
+                xw0  == IF ExtAct(act) /\ WithWorld(hist.fam) THEN XwApply(hist.xw, act) ELSE hist.xw
                 \* evm family: custody and executed batches are what the real contract reports
                 xw1  == IF post.evm # <<>>
                         THEN [c \in DOMAIN xw0 |->
                                 IF c \in DOMAIN post.evm
                                 THEN [xw0[c] EXCEPT !.cust = [t \in DOMAIN @ |-> Get(post.evm[c].cust, t, 0)],
-                                                    !.done = IF line.act.k = "EvmSubmitBatch" /\ line.res.out = "ok" /\ line.act.chain = c
-                                                             THEN @ \cup {<<line.act.tok, line.act.n>>} ELSE @]
+                                                    !.done = IF act.k = "EvmSubmitBatch" /\ line.res.out = "ok" /\ act.chain = c
+                                                             THEN @ \cup {<<act.tok, act.n>>} ELSE @]
                                 ELSE xw0[c]]
                         ELSE xw0
                 \* minter family: custody and executed batches are what the Minter chain model reports
@@ -358,11 +364,11 @@ ConsumeStep ==
                                          ![MC].done = {<<e.tok, e.bn>> : e \in {e \in RangeOf(post.mnt.ref) : e.t = "Exec"}}]
                         ELSE xw1
                 xw2  == IF WithWorld(hist.fam) THEN XwObserve(xw1m, post) ELSE xw1m
-            IN /\ fails' = ConfChecks(hist.pre, act, line.res, post) \cup PropChecks(hist.g, xw2, hist.fam, hist.pre, act, line.res, post)
-                            \cup C16Queries(gc2, post) \cup MinterChecks(hist.call, hist.pre, line.act, line.res)
+            IN /\ fails' = (IF act.k = "UnresolvedRef" THEN {<<"conf:ref", "">>} ELSE {}) \cup ConfChecks(hist.pre, act, line.res, post) \cup PropChecks(hist.g, xw2, hist.fam, hist.pre, act, line.res, post)
+                            \cup C16Queries(gc2, post) \cup MinterChecks(hist.call, hist.pre, act, line.res)
                /\ hist' = [hist EXCEPT !.pre = post, !.xw = xw2, !.gc = gc2, !.cfg = CfgAfter(hist.cfg, line),
-                                       !.call = IF line.act.k = "ConnCall" THEN post ELSE @,
-                                       !.g = IF Modelled(line.act) THEN GhostNext(hist.g, hist.pre, line.act, line.res, post) ELSE hist.g,
+                                       !.call = IF act.k = "ConnCall" THEN post ELSE @,
+                                       !.g = IF Modelled(act) THEN GhostNext(hist.g, hist.pre, act, line.res, post) ELSE hist.g,
                                        !.viol = @ \cup {<<hist.id, line.i, f[1], f[2]>> : f \in fails'},
                                        !.cov = Bump(@, CovKey(line.act, line.res))]
     /\ l' = l + 1
